@@ -431,8 +431,11 @@ def run_task(args):
             so.set('timeout', 3000)
             so.add(*ob['pc'])
             seen_pc[pk] = so.check()
-            if seen_pc[pk] == z3.unsat:
-                res['error'] = f"vacuity: contradictory hypotheses on {ob['id']}"
+        # an infeasible PATH is harmless (feasibility queries that time out never prune, so vacuous paths are explored);
+        # a task in which NO path has satisfiable hypotheses means a contradictory precondition / assumed contract
+        if seen_pc and all(v == z3.unsat for v in seen_pc.values()):
+            res['error'] = f"vacuity: contradictory hypotheses on every path of {cname}[{cfg_str(cfg)}]"
+        res['vacuous_paths'] = sum(1 for v in seen_pc.values() if v == z3.unsat)
         res['vacuity_checked'] = len(seen_pc)
         if mutant and mod.MUTANTS[mutant].get('expect'):
             # the control names the clause it is meant to break: only those obligations are tried
